@@ -2,6 +2,7 @@
    [all_msgs], [nas_types], the dispatch tables are regenerated from /repo on every run;
    [decode_def] is the meaning of the generator template (Codec/Sem.v), tied to the Go code by
    the canonical-program check below and by the correspondence run. *)
+From NV Require C19.Globals.
 From NV Require Import Lib.Base Codec.Lang Codec.Def Codec.Sem Codec.Total Codec.Cost Codec.Dispatch Codec.DispatchProofs Codec.GenDefs Codec.Stmt Codec.StmtProofs Codec.Final
   Gen.GenMsgs Gen.GenTypes Gen.GenDispatch.
 From Coq Require Import String.
@@ -86,6 +87,14 @@ Theorem C01_template_is_decode_def : forall d shape_of, NoDup (map sd_name d) ->
   omap s_fields (exec_top (map sd_name d) shape_of (canon_dec d) (mkst (initf d) 0 bs)) = decode_def d bs.
 Proof. exact exec_canon_dec. Qed.
 
+(* the functions this property is about are functions of their arguments: the files it is anchored in declare
+   no package-level variable other than the pinned read-only tables (or a never-touched one of plain type) and
+   none of their functions writes, slices, takes the address of, passes on or calls a method of a
+   package-level variable (logger entries excepted) -- evaluated on the current source (C19/Globals.v) *)
+Theorem C01_anchor_files_keep_no_state :
+  Globals.hidden_state_free Globals.anchors_C01 = true.
+Proof. vm_compute. reflexivity. Qed.
+
 Print Assumptions C01_all_canonical.
 Print Assumptions C01_all_wf.
 Print Assumptions C01_decode_total.
@@ -98,3 +107,4 @@ Print Assumptions C01_message_decode_cost.
 Print Assumptions C01_programs_are_decode_def.
 Print Assumptions C01_programs_total.
 Print Assumptions C01_template_is_decode_def.
+Print Assumptions C01_anchor_files_keep_no_state.
